@@ -59,7 +59,7 @@ impl Offer {
     }
 }
 
-fn certs_dir() -> PathBuf {
+pub(crate) fn certs_dir() -> PathBuf {
     PathBuf::from(std::env::var("VERIF_DIR").unwrap_or_else(|_| "/verif".to_string())).join("certs")
 }
 
@@ -154,7 +154,7 @@ impl ClientCertVerifier for AcceptAnyClient {
     }
 }
 
-fn peer_client_config(offer: Offer, cert: Option<&str>) -> Arc<rustls::ClientConfig> {
+pub(crate) fn peer_client_config(offer: Offer, cert: Option<&str>) -> Arc<rustls::ClientConfig> {
     let p = provider();
     let b = rustls::ClientConfig::builder_with_provider(p.clone())
         .with_protocol_versions(offer.versions())
@@ -236,7 +236,7 @@ impl Cell {
     }
 }
 
-fn min_tls(min: u8) -> rodbus::client::MinTlsVersion {
+pub(crate) fn min_tls(min: u8) -> rodbus::client::MinTlsVersion {
     if min == 12 {
         rodbus::client::MinTlsVersion::V1_2
     } else {
@@ -244,7 +244,7 @@ fn min_tls(min: u8) -> rodbus::client::MinTlsVersion {
     }
 }
 
-fn path(name: &str, ext: &str) -> PathBuf {
+pub(crate) fn path(name: &str, ext: &str) -> PathBuf {
     certs_dir().join(format!("{}.{}", name, ext))
 }
 
